@@ -13,6 +13,10 @@ CLAIMS = {
   'Seeded time-travel programs (try/undo, try/stop also in loops and left by break/continue/return, handlers containing tries, preempt in try bodies and in defeat functions incl. recursive and preemptive ones, ?? with side-effecting operands, you-helpers) run on the simulated machine whose Turing-jump oracle explores choice/rollback schedules; the committed history must equal that of a reference interpreter that resolves the source-level choice points by newest-first backtracking. Histories of consecutive tries (canary try/undo after each try) make a stale handler observable. Checked and unchecked builds, poisoned free stack.',
   'Two independent searches (machine-level tree with a choice at every branch vs source-level tree) must agree; both are mine, neither is spasm. Budget-exceeding searches are counted and not judged.',
   'deterministic simulation: rollback oracle explores speculative timelines; seeded program/history generation; refinement check against a backtracking reference model'),
+ 'C03': ('exploration', '3 C03',
+  'Invariant "no halt with an empty choice stack, pc never leaves the code, no machine fault" checked at every step of every run of the broadest program mix (time travel, sequential, planted runtime faults and their harmless twins, exit-analysis shapes, scope/array programs), checked builds at generous and at seeded tiny stacks (runtime faults must end in their error loops, exhaustion in stack_overflow) and unchecked builds of fault-free runs; evidence counts the halts that were reached speculatively and averted.',
+  'A committed halt is defined by the SVM oracle (newest-first rollback, cycle detection = runs forever); BUDGET runs are inconclusive and counted.',
+  'deterministic simulation: per-step invariant on the simulated machine under seeded programs, inputs, build options and resource/fault injection'),
  'C04': ('fault_enumeration', '3 C04',
   'For each array-heavy (or time-travel, or fault-planted) program the stack-size axis is enumerated completely: every size from 0 words to the first completing size N plus two (window enumeration plus seeded sizes when N > 90), each run with freshly poisoned free stack and scratch registers. At every size the memory monitor (live ap/fp, array extents, provenance tags), the scope and control monitors must stay silent; below N the run must end in stack_overflow with an uncorrupted output prefix, from N on it must reproduce the reference history, and different garbage must not change it.',
   'M-mem is sound-by-weakening (unknown provenance falls back to weaker rules); reads of garbage are caught only when they change behaviour across poisons or vs the reference.',
@@ -21,10 +25,18 @@ CLAIMS = {
   'The fault axis is enumerated: every fault kind x operator/element type/storage class x boundary index/divisor/length with its nearest harmless neighbours (936 matrix programs whose expected flag is derived independently of the reference model and cross-checked with it), plus the same faults planted at seeded positions inside loops, callees and try bodies of generated programs; exact flag sequence, intact prefix and nothing-after are checked on the committed timeline.',
   'Flag for bad lengths is stack_overflow as the implementation/upstream tests define; bool lengths within 7 of the largest signed value are not probed (README silent).',
   'deterministic simulation with enumerated program-level fault injection; differential oracle vs reference model'),
+ 'C08': ('exploration', '3 C08',
+  'Seeded programs with arrays at every nesting level of blocks, loops, calls and tries, left by every exit route chosen periodically by (i + sel) % M; M-scope samples (fp, ap) at every loop-head arrival within an activation, at call returns and at stop-handler entry, M-mem tracks array extents (release into a live array, access through a released origin); end-to-end: the measured minimal stack for k = M and k = 3M iterations must be equal and the long run at that stack must reproduce the reference history.',
+  'Footprint equality relies on the generated programs being periodic in their control flow by construction.',
+  'deterministic simulation: history of scope exits driven by input, state invariants sampled by the simulator, resource-exhaustion measurement'),
  'C09': ('exploration', '3 C09',
   'Boundary grid x every operator and cast x four lowering positions (value, branch, !truth_is_defeat under try/undo and under try/stop) x word sizes {2,3,4}, operands passed through argv so nothing folds, plus seeded operand rows; the emitted code runs on the simulated machine (the defeat positions need its Turing-jump oracle) and every printed result is compared with the reference interpreter.',
   'Weak fit for the technique (the quantifier is a value grid); the simulator is needed because the result exists only as behaviour of emitted code. SVM/reference assumptions as for C01; floor div/mod assumed.',
   'deterministic simulation of emitted code over an enumerated value grid plus seeded sampling; differential oracle'),
+ 'C10': ('fault_enumeration', '3 C10',
+  'Text half: seeded fuzzing (random text/bytes, token soups, mutated/truncated/ill-typed variants of generated programs, nesting <= 40) x option vectors through the API (only CompilerError may escape, diagnostics render, spans inside the source) - this half is input fuzzing run through the same harness. I/O half: hidc.__main__.main() in-process on a fake file system; for every invocation the recorded file-system calls are enumerated as fault positions x {EIO, ENOSPC, EACCES, EMFILE} plus missing input, directory as input/output and undecodable bytes; exit status, stderr, traceback absence and output-file presence/content are checked; a sample is cross-checked against a real python -m hidc subprocess.',
+  'Fake raw streams wrapped in the real io classes; UTF-8 locale assumed; successful output must be accepted by the strict SVM assembler (stub of the Sphinx assembler).',
+  'deterministic simulation of the CLI on a fake file system with enumerated I/O fault injection; seeded input fuzzing for the totality half'),
  'C13': ('exploration', '3 C13',
   'Every byte value singly / as character immediate / at first-middle-last position, special-byte pairs (all 65536 pairs in thorough), constant arrays of all lengths 0..40 in four storage classes, seeded random strings and literal spellings; the strict SVM assembler must accept the output and the running program must print, index and measure exactly the denoted bytes.',
   'Weak fit (value space); the SVM assembler\'s strictness stands in for the real Sphinx assembler.',
@@ -41,6 +53,10 @@ CLAIMS = {
   'Hash-seed / fresh-process seam: batches of seeded programs compiled in 4 fresh interpreters under seeded PYTHONHASHSEED values and twice in-process must give byte-identical assembly; stack seam: histories at N, N+1, N+2, N+9, 4000 and 100000 words identical; word-size seam: runs at {2,3,4,8} bytes agree whenever the reference histories agree (program constants fit 16 bits); --lint either rejects or leaves the bytes unchanged.',
   'Assumes PYTHONHASHSEED is the only per-process nondeterminism reachable from hidc.',
   'deterministic simulation with controlled interpreter hash seed / process seam and configuration sweeps on the simulated machine'),
+ 'C16': ('exploration', '3 C16',
+  'Seeded function bodies composed of the shapes the exit analysis reasons about (constant-true loops with/without break, if/else exits, try/undo/stop with exits in body and handler, preempt with the only return, statements after exits, terminal calls), including shapes that must be rejected; when hidc accepts, the program runs for every selector value with the program-counter monitor (no sequential arrival at a function entry, pc never leaves the code), the history must equal the reference interpreter (which executes every source statement) and the reference must never fall off a value-returning function.',
+  'Rejections are never judged (conservatism allowed). Function entries are recognised from the call pattern, pc 0 and code addresses stored as data.',
+  'deterministic simulation: program-counter invariant monitor on the simulated machine plus differential oracle vs a reference model that ignores reachability analysis'),
  'C17': ('exploration', '3 C17',
   'All 65536 16-bit integers, all 256 bytes, both bools, byte arrays/strings of every length 0..64 in eight storage classes, seeded boundary/random integers at 24/32/64 bits; guard variables and a neighbouring array checked by the program itself, M-mem on every library store, selected jobs re-run at the measured minimal stack with poisoned free memory.',
   'Exhaustive only for the 16-bit sweep, bytes, bools and lengths (flagged in coverage.sweep16_complete); SVM assumptions as for C01.',
